@@ -62,6 +62,43 @@ Theorem C29_search_isolation : forall T cur nreq treq fs1 f rest last,
 Proof. exact find_file. Qed.
 Print Assumptions C29_search_isolation.
 
+(* Bounded reads (INPUT$(n,#f) = file.read(n)): one read of n bytes from an open text/data file returns
+   exactly the next n bytes of what remains (fewer only if fewer remain), also across the 255-byte record
+   boundaries, advances by exactly what it returned and never disturbs where the file ends on the tape. *)
+Theorem C29_bounded_read : forall n s, good s ->
+  exists s', read_n n s = ROk (firstn n (remaining s)) s' /\ remaining s' = skipn n (remaining s) /\
+             good s' /\ final_rest s' = final_rest s.
+Proof.
+  intros n s Hg. destruct (cs_read_spec (S (length (rd_rest s))) n [] s Hg (Nat.lt_succ_diag_r _))
+    as (s' & E & Hr & Hg' & Hf & _).
+  cbn [app length] in *. rewrite Nat.sub_0_r in *. exists s'. repeat split; assumption.
+Qed.
+Print Assumptions C29_bounded_read.
+
+(* a text/data file read back with ANY sequence of request sizes >= 1 gives the contents written, every
+   request answered with min(request, bytes left) bytes, and the head ends after the file's own records *)
+Theorem C29_text_plan_roundtrip : forall chunks rest plan fuel, Forall (fun n => (1 <= n)%nat) plan ->
+  (length (concat chunks) < fuel)%nat ->
+  read_plan fuel plan 0 (rd0 (text_records chunks ++ rest)) [] [] =
+  Some (concat chunks, lens_spec fuel plan 0 (length (concat chunks)), rest).
+Proof. exact text_plan_roundtrip. Qed.
+Print Assumptions C29_text_plan_roundtrip.
+
+(* C29_search_isolation with the file read by bounded reads: same file, messages and head position *)
+Theorem C29_search_isolation_bounded_reads : forall T cur nreq treq fs1 f rest last plan,
+  Forall (passed_over nreq treq) fs1 -> file_ok f -> matches nreq treq f = true ->
+  last_ok last -> illegal_name nreq = false -> Forall (fun n => (1 <= n)%nat) plan ->
+  open_read_plan plan
+    {| r_tape := T; r_rest := files_records last fs1 ++ file_records (end_last last fs1) f ++ rest;
+       r_type := cur; r_open := false |} nreq treq =
+  ({| r_tape := T; r_rest := rest; r_type := wf_type f; r_open := false |},
+   skipped_msgs fs1 ++ msg 1 (pad_name (wf_name f)) (wf_type f),
+   OFile (view (end_last last fs1) f),
+   if is_binary (wf_type f) then []
+   else lens_spec (S (S (tape_bytes (body_records f ++ rest)))) plan 0 (length (wf_data f))).
+Proof. exact find_file_plan. Qed.
+Print Assumptions C29_search_isolation_bounded_reads.
+
 (* every file matches a request for the name it was written under, whatever the name's length *)
 Theorem C29_found_by_own_name : forall name, name_match name (pad_name name) = true.
 Proof. exact name_match_own. Qed.
@@ -164,3 +201,10 @@ Proof.
   split; [repeat (constructor; [split; apply bytesb_ok; vm_compute; reflexivity|]); constructor|].
   split; vm_compute; reflexivity.
 Qed.
+
+(* non-vacuity of the bounded-read theorems: the 400-byte file of the seeded regression read with INPUT$(100) *)
+Example C29_bounded_nonvacuous :
+  let chunks := [pat true 1 3 400] in
+  good (rd0 (text_records chunks)) /\
+  read_plan 500 [100%nat] 0 (rd0 (text_records chunks)) [] [] = Some (concat chunks, [100; 100; 100; 100; 0], []).
+Proof. split; [right; vm_compute; reflexivity | vm_compute; reflexivity]. Qed.
